@@ -19,7 +19,10 @@ RULE = ("valid streams from the real encoder (random meshes of every topology fa
         "Geometry.valid); distinct op lines"
         '; plus structure-aware corruption of every located field of small base streams, the tamper-hook campaign'
         ' (the encoder re-run with exactly one semantic value replaced; every produced stream is an ordinary '
-        'case) and the regression streams of repaired findings')
+        'case) and the regression streams of repaired findings (dcc9947, c9df685, 63027a3); the structure-aware '
+        'bases include hand-built legacy 2.0-2.2 integer / float kd-tree streams (harness op legacykd; '
+        'implementation only), point clouds spliced into one stream with 2..3 attributes decoders (validity cases '
+        'and bases for header / count corruption) and valence-traversal streams with located context counts')
 THEOREM_BACKED = ("DracoProps.C03: decode_ok_valid: decodeGeometrySeq opts s = (some r, s') -> r.geometry.valid = true for "
                   'every byte string and option set (sequential point cloud + mesh decoders of every bitstream version '
                   '1.1..2.3; decodeGeometrySeq = the complete decoder with the Edgebreaker / kd-tree bodies rejected); '
